@@ -119,3 +119,55 @@ func (w *Workspace) structuralC11() *FuncResult {
 	res.Notes = append(res.Notes, fmt.Sprintf("%d message types enumerated from the MsgServer interfaces of %s", total, strings.Join(customModules, ", ")))
 	return res
 }
+
+// structuralC05: the Begin/EndBlock hooks of the custom modules either do
+// nothing (no call, no panic-capable instruction) or only call the module's
+// BeginBlocker, which is under a nopanic contract.
+func (w *Workspace) structuralC05() *FuncResult {
+	res := &FuncResult{Key: "custom modules: block hooks"}
+	for _, mod := range append(append([]string{}, customModules...), "jklmint") {
+		mp := w.ssaPkgs[modPath+"/x/"+mod]
+		if mp == nil {
+			res.Obls = append(res.Obls, structural("x/"+mod, "package_loaded", []string{"C05"}, false, "package x/"+mod+" is not loaded"))
+			continue
+		}
+		am, ok := mp.Pkg.Scope().Lookup("AppModule").(*types.TypeName)
+		if !ok {
+			res.Obls = append(res.Obls, structural("x/"+mod, "appmodule_found", []string{"C05"}, false, "no AppModule type"))
+			continue
+		}
+		for _, hook := range []string{"BeginBlock", "EndBlock"} {
+			m := w.prog.LookupMethod(am.Type(), mp.Pkg, hook)
+			if m == nil {
+				res.Obls = append(res.Obls, structural("x/"+mod+".AppModule."+hook, "hook_found", []string{"C05"}, false, "method not found"))
+				continue
+			}
+			ok, why := true, "no call and no instruction that can panic"
+			for _, b := range m.Blocks {
+				for _, ins := range b.Instrs {
+					switch x := ins.(type) {
+					case *ssa.DebugRef, *ssa.Return, *ssa.Alloc, *ssa.Jump, *ssa.Store, *ssa.FieldAddr, *ssa.Field:
+					case *ssa.UnOp:
+					case *ssa.MakeSlice, *ssa.Slice:
+					case *ssa.Call:
+						callee := x.Common().StaticCallee()
+						key := ""
+						if callee != nil && callee.Pkg != nil {
+							key = callee.Pkg.Pkg.Path() + "::" + relName(callee)
+						}
+						ct := w.contracts[key]
+						if callee != nil && callee.Name() == "BeginBlocker" && callee.Pkg == mp && ct != nil && ct.NoPanic && contains(ct.Props, "C05") {
+							why = "only calls " + mod + ".BeginBlocker, which is under a nopanic contract"
+						} else {
+							ok, why = false, "calls "+x.Common().String()+" which is not a BeginBlocker under a nopanic contract"
+						}
+					default:
+						ok, why = false, fmt.Sprintf("instruction %T (%s) may panic or have effects", ins, ins.String())
+					}
+				}
+			}
+			res.Obls = append(res.Obls, structural("x/"+mod+".AppModule."+hook, "hook_cannot_panic_outside_contracts", []string{"C05"}, ok, why))
+		}
+	}
+	return res
+}
